@@ -17,18 +17,30 @@ _FN_COUNTER = [0]
 
 
 def _fresh_fn(f: Callable, unique: bool) -> Callable:
-    """Wrap ``f`` in a freshly named function decorated with @onnx_function (the plugin registry is keyed
-    by qualified name and survives the process, so every generated target gets its own name)."""
+    """A freshly named module-level function decorated with @onnx_function.
+
+    The function plugin patches ``module.<name>`` while tracing, so the target must be a real module
+    attribute and call sites must look it up at call time (exactly like user code calling a decorated
+    top-level function).  The registry is keyed by qualified name and survives the process, hence a
+    fresh name per generated target."""
+    import sys
     from jax2onnx import onnx_function
     _FN_COUNTER[0] += 1
     name = f"GenFn{_FN_COUNTER[0]}"
+    mod = sys.modules[__name__]
 
     def inner(x):
         return f(x)
 
     inner.__name__ = name
     inner.__qualname__ = name
-    return onnx_function(inner, unique=True) if unique else onnx_function(inner)
+    inner.__module__ = __name__
+    setattr(mod, name, inner)
+    if unique:
+        onnx_function(inner, unique=True)
+    else:
+        onnx_function(inner)
+    return lambda x: getattr(mod, name)(x)
 
 
 def leaf_body(variant: str) -> Callable:
@@ -123,3 +135,50 @@ def nest_spec(case: Dict[str, Any]):
 
 def nest_feed(case: Dict[str, Any], b: int = 2, sign: float = 1.0) -> np.ndarray:
     return (np.arange(b * 3, dtype=np.float32).reshape(b, 3) * 0.5 - 1.0) * sign
+
+
+# --------------------------------------------------------------------------
+# constant-lattice programs for the precision property (C09)
+# --------------------------------------------------------------------------
+CONST_KINDS = ("py_scalar", "np_f32_array", "np_f64_array", "jnp_literal", "in_fori", "in_scan", "in_cond", "in_while",
+               "in_fn", "in_fn_in_fori", "division", "transcendental", "reduction", "matmul_const")
+
+
+def const_program(kind: str) -> Callable:
+    import jax
+    import jax.numpy as jnp
+    from jax import lax
+    c32 = (np.arange(3, dtype=np.float32) + 1) / 3
+    c64 = (np.arange(3, dtype=np.float64) + 1) / 3
+    if kind == "py_scalar":
+        return lambda x: x * 0.1 + 0.2
+    if kind == "np_f32_array":
+        return lambda x: x * c32 + 0.7
+    if kind == "np_f64_array":
+        return lambda x: x * c64 + 0.7
+    if kind == "jnp_literal":
+        return lambda x: x * jnp.asarray(0.1) + jnp.array([0.3, 0.6, 0.9])
+    if kind == "in_fori":
+        return lambda x: lax.fori_loop(0, 3, lambda i, c: c * 0.1 + 0.3, x)
+    if kind == "in_scan":
+        return lambda x: lax.scan(lambda c, _: (c * 0.1 + 0.3, jnp.sum(c) * 0.7), x, None, length=3)[0]
+    if kind == "in_cond":
+        return lambda x: lax.cond(jnp.sum(x) > 0.1, lambda y: y * 0.1 + 0.3, lambda y: y * 0.7 - 0.1, x)
+    if kind == "in_while":
+        return lambda x: lax.while_loop(lambda c: c[0] < 3, lambda c: (c[0] + 1, c[1] * 0.1 + 0.3), (jnp.int32(0), x))[1]
+    if kind == "in_fn":
+        t = _fresh_fn(lambda y: y * 0.1 + 0.3, False)
+        return lambda x: t(x) + 0.7
+    if kind == "in_fn_in_fori":
+        t = _fresh_fn(lambda y: y * 0.1 + 0.3, False)
+        return lambda x: lax.fori_loop(0, 2, lambda i, c: t(c), x)
+    if kind == "division":
+        return lambda x: x / 3.0 + 1.0 / 7.0
+    if kind == "transcendental":
+        return lambda x: jnp.exp(x * 0.1) + jnp.sin(x) * 0.3
+    if kind == "reduction":
+        return lambda x: jnp.mean(x * 0.1, axis=-1) + jnp.sum(x) * 0.3
+    if kind == "matmul_const":
+        w = (np.arange(9, dtype=np.float64).reshape(3, 3) + 1) / 7
+        return lambda x: x @ jnp.asarray(w) + 0.1
+    raise ValueError(kind)
